@@ -1647,13 +1647,14 @@ pub fn array_flat(
 
     let depth = args.first().map(|v| v.to_number() as i32).unwrap_or(1);
 
-    fn flatten(arr: &JsObjectRef, depth: i32) -> Vec<JsValue> {
+    fn flatten(arr: &JsObjectRef, depth: i32, stack_base: usize) -> Result<Vec<JsValue>, JsError> {
+        Interpreter::check_native_stack_since(stack_base)?;
         let elements: Vec<JsValue> = {
             let arr_ref = arr.borrow();
             if let Some(elements) = arr_ref.array_elements() {
                 elements.to_vec()
             } else {
-                return vec![];
+                return Ok(vec![]);
             }
         };
 
@@ -1663,15 +1664,15 @@ pub fn array_flat(
                 && let JsValue::Object(ref inner) = elem
                 && inner.borrow().is_array()
             {
-                result.extend(flatten(inner, depth - 1));
+                result.extend(flatten(inner, depth - 1, stack_base)?);
                 continue;
             }
             result.push(elem);
         }
-        result
+        Ok(result)
     }
 
-    let elements = flatten(&arr, depth);
+    let elements = flatten(&arr, depth, Interpreter::native_stack_address())?;
     let guard = interp.heap.create_guard();
     let arr = interp.create_array_from(&guard, elements);
     Ok(Guarded::with_guard(JsValue::Object(arr), guard))
